@@ -120,6 +120,69 @@ Section Machine2.
     eapply run_bind; [apply run_mk_span0|]. exact H.
   Qed.
 
+  (* open-ended primaries: the keyword is recognised after the earlier alternatives miss *)
+  Lemma pl_primary_import f stk t (a : expr) t' : t <> [] ->
+    run (x <- prefix_form pexpr sp0 EImport ;; PL f (StParsed x) stk) t a t' ->
+    run (PL (S f) StPrimary stk) (sim KImport :: t) a t'.
+  Proof.
+    intros Ht H. cbn [pe_loop]. do 8 (eapply run_orelse_miss; [run_compute|]).
+    eapply run_orelse_hit; [apply run_eat_hit; [reflexivity|exact Ht]|]. exact H.
+  Qed.
+  Lemma pl_primary_importstr f stk t (a : expr) t' : t <> [] ->
+    run (x <- prefix_form pexpr sp0 EImportStr ;; PL f (StParsed x) stk) t a t' ->
+    run (PL (S f) StPrimary stk) (sim KImportstr :: t) a t'.
+  Proof.
+    intros Ht H. cbn [pe_loop]. do 9 (eapply run_orelse_miss; [run_compute|]).
+    eapply run_orelse_hit; [apply run_eat_hit; [reflexivity|exact Ht]|]. exact H.
+  Qed.
+  Lemma pl_primary_importbin f stk t (a : expr) t' : t <> [] ->
+    run (x <- prefix_form pexpr sp0 EImportBin ;; PL f (StParsed x) stk) t a t' ->
+    run (PL (S f) StPrimary stk) (sim KImportbin :: t) a t'.
+  Proof.
+    intros Ht H. cbn [pe_loop]. do 10 (eapply run_orelse_miss; [run_compute|]).
+    eapply run_orelse_hit; [apply run_eat_hit; [reflexivity|exact Ht]|]. exact H.
+  Qed.
+  Lemma pl_primary_error f stk t (a : expr) t' : t <> [] ->
+    run (x <- prefix_form pexpr sp0 EError ;; PL f (StParsed x) stk) t a t' ->
+    run (PL (S f) StPrimary stk) (sim KError :: t) a t'.
+  Proof.
+    intros Ht H. cbn [pe_loop]. do 11 (eapply run_orelse_miss; [run_compute|]).
+    eapply run_orelse_hit; [apply run_eat_hit; [reflexivity|exact Ht]|]. exact H.
+  Qed.
+
+  Lemma pl_primary_if f stk t (a : expr) t' : t <> [] ->
+    run (cond <- pexpr ;;
+         _ <- expect_simple KThen true ;;
+         th <- pexpr ;;
+         c <- eat_simple KElse true ;;
+         el <- opt_expr pexpr c ;;
+         sp <- mk_span sp0 (match el with Some x => expr_span x | None => expr_span th end) ;;
+         PL f (StParsed (EIf sp cond th el)) stk) t a t' ->
+    run (PL (S f) StPrimary stk) (sim KIf :: t) a t'.
+  Proof.
+    intros Ht H. cbn [pe_loop]. do 5 (eapply run_orelse_miss; [run_compute|]).
+    eapply run_orelse_hit; [apply run_eat_hit; [reflexivity|exact Ht]|]. exact H.
+  Qed.
+
+  Lemma pl_primary_assert f stk t A t1 (a : expr) t' : t <> [] ->
+    run (cond <- pexpr ;;
+         c <- eat_simple SColon true ;;
+         msg <- opt_expr pexpr c ;;
+         sp <- mk_span sp0 (match msg with Some m => expr_span m | None => expr_span cond end) ;;
+         ret (Some (sp0, MkAssert sp cond msg))) t (Some (sp0, A)) t1 ->
+    run (_ <- expect_simple SSemicolon true ;;
+         inner <- pexpr ;;
+         sp <- mk_span sp0 (expr_span inner) ;;
+         PL f (StParsed (EAssert sp A inner)) stk) t1 a t' ->
+    run (PL (S f) StPrimary stk) (sim KAssert :: t) a t'.
+  Proof.
+    intros Ht H1 H2. cbn [pe_loop]. do 7 (eapply run_orelse_miss; [run_compute|]).
+    eapply run_orelse_hit.
+    - unfold maybe_parse_assert. apply run_call.
+      eapply run_orelse_hit; [apply run_eat_hit; [reflexivity|exact Ht]|exact H1].
+    - exact H2.
+  Qed.
+
   (* from the unary level back to level k *)
   Definition steps_fin (k : nat) : nat := match (10 - k)%nat with O => O | S d => S (2 * d) end.
 
